@@ -1,10 +1,10 @@
 SPECIFICATION Spec
 CONSTANTS
-  MaxB = 5
-  K = 3
-  Budget = 1
+  MaxB = 7
+  K = 4
+  Budget = 2
   KeepSsz = TRUE
-  MaxOps = 8
-  UseResult = FALSE
+  MaxOps = 0
+  UseResult = TRUE
 INVARIANTS TypeOK NoOrphan Reclaimed FreeIsEmpty
 CHECK_DEADLOCK FALSE
